@@ -107,6 +107,8 @@ def h_active(sx):
     import logging
     logging.disable(logging.CRITICAL)
     if history:
+        # user code may look categories up itself (e.g. print_active_tags) with its own default - known or not
+        looked = [prov.get(c) for c in ("os", "ver", "flag", "nosuch")] + [prov.get("nosuch", "n/a")]
         first = bool(matcher.should_exclude_with(["wip", "not.with_ver=5"]))
         seen = [v.value for v in values.values()]        # reading .value (as repr/str do) must not freeze it either
         cell.update({"os": os_cur, "ver": ver_cur, "flag": flag_cur})
